@@ -23,6 +23,7 @@ import (
 	"bytes"
 	"encoding/hex"
 	"fmt"
+	"math"
 	"math/rand"
 	"sort"
 	"strconv"
@@ -64,6 +65,15 @@ func block(blk string) *types.Block {
 	b := &types.Block{Header: common2.Header{Version: u(0), Timestamp: u(1), Bits: u(2), Nonce: u(3), Height: u(4)}}
 	b.Header.Previous[0] = byte(u(3))
 	return b
+}
+
+// tipOf reads the optional trailing token tip=<best>:<blk> (default: live node, best = 1000).
+func tipOf(t []string, i int) (uint32, *types.Block) {
+	if len(t) > i && strings.HasPrefix(t[i], "tip=") {
+		p := strings.SplitN(t[i][4:], ":", 2)
+		return uint32(atoi(p[0])), block(p[1])
+	}
+	return 1000, nil
 }
 
 func seedOf(b *types.Block) int64 {
@@ -114,9 +124,20 @@ func runEnv(env string) {
 }
 
 type prod struct {
-	v     int64
-	node  []byte
-	owner []byte
+	v      int64
+	node   []byte
+	owner  []byte
+	stakes []state.VerifStake
+}
+
+// the vote rights of a stake list as the property needs them: a function of the set of stakes —
+// each stake contributes floor(votes * log10(lock/720)) (integers: the sum does not depend on the order)
+func rightsOf(st []state.VerifStake) int64 {
+	var r int64
+	for _, s := range st {
+		r += int64(float64(s.Votes) * math.Log10(float64(s.Lock)/7200*10))
+	}
+	return r
 }
 
 func parseProds(ts []string) []prod {
@@ -132,8 +153,17 @@ func parseProds(ts []string) []prod {
 		}
 		pr := prod{v: v, node: hx.UnHex(p[1])}
 		pr.owner = append([]byte{0xEE}, pr.node...)
-		if len(p) == 3 {
+		if len(p) >= 3 {
 			pr.owner = hx.UnHex(p[2])
+		}
+		if len(p) == 4 {
+			for _, st := range strings.Split(p[3], "+") {
+				q := strings.Split(st, "@")
+				pr.stakes = append(pr.stakes, state.VerifStake{Votes: common.Fixed64(atoi(q[0])), Lock: uint32(atoi(q[1]))})
+			}
+			if rightsOf(pr.stakes) != pr.v {
+				panic(fmt.Sprintf("harness: rights %d of %s do not match the op's value %d", rightsOf(pr.stakes), p[3], pr.v))
+			}
 		}
 		res = append(res, pr)
 	}
@@ -143,7 +173,17 @@ func parseProds(ts []string) []prod {
 func toVerif(ps []prod, shuffle int) []state.VerifProducer {
 	var res []state.VerifProducer
 	for _, p := range ps {
-		res = append(res, state.VerifProducer{Owner: p.owner, Node: p.node, Votes: common.Fixed64(p.v), Rights: common.Fixed64(p.v)})
+		vp := state.VerifProducer{Owner: p.owner, Node: p.node, Votes: common.Fixed64(p.v), Rights: common.Fixed64(p.v)}
+		if len(p.stakes) > 0 {
+			// a different record order per repetition (the records live in Go maps anyway)
+			st := append([]state.VerifStake(nil), p.stakes...)
+			for i := range st {
+				j := (i*5 + shuffle*3) % len(st)
+				st[i], st[j] = st[j], st[i]
+			}
+			vp.Stakes = st
+		}
+		res = append(res, vp)
 	}
 	// a different insertion order per repetition (Go's map order is random anyway)
 	for i := range res {
@@ -224,7 +264,7 @@ var lastUnstable string
 func execRandV2(t []string) string {
 	normal, crc, unclaimed := atoi(t[2]), atoi(t[3]), atoi(t[4])
 	b := block(t[7])
-	ps := parseProds(t[8:])
+	ps := parseProds(t[9:])
 	seed := seedAuxOf(b)
 	if strconv.FormatInt(seed, 10) != t[1] {
 		return "oracle-mismatch seed " + strconv.FormatInt(seed, 10)
@@ -235,7 +275,8 @@ func execRandV2(t []string) string {
 	env := t[6]
 	state.VerifInterleave = func() { runEnv(env) }
 	defer func() { state.VerifInterleave = nil }()
-	res, err := state.VerifRandomDposV2Producers(b, normal, crc, unclaimed, toVerif(ps, 0))
+	best, other := tipOf(t, 8)
+	res, err := state.VerifRandomDposV2Producers(b, normal, crc, unclaimed, toVerif(ps, 0), best, other)
 	if err != nil {
 		return "err " + strings.ReplaceAll(err.Error(), " ", "_")
 	}
@@ -287,7 +328,10 @@ func exec(t []string) string {
 			}()
 		}
 	}
-	idx, err := state.VerifCandidateIndexAtRandom(b, normal, cands, 1000, unclaimed, voted)
+	// where the process-local chain tip stands is environment too: a live node reports the height being
+	// processed, a node replaying above its checkpoint reports the tip; a different block sits below the tip
+	best, other := tipOf(t, 9)
+	idx, err := state.VerifCandidateIndexAtRandom(b, normal, cands, 1000, unclaimed, voted, best, other)
 	atomic.StoreInt32(&stop, 1)
 	wg.Wait()
 	if err != nil {
@@ -324,10 +368,14 @@ func oracle(t []string, out string) *hx.Violation {
 		if strings.HasPrefix(out, "err ") || strings.HasPrefix(out, "oracle-mismatch") {
 			return nil
 		}
-		want, _ := wantV2(seedAuxOf(block(t[7])), parseProds(t[8:]), atoi(t[4]), atoi(t[2])+atoi(t[3]))
+		want, _ := wantV2(seedAuxOf(block(t[7])), parseProds(t[9:]), atoi(t[4]), atoi(t[2])+atoi(t[3]))
 		if out != joinOr(want, ",", "-") {
-			return &hx.Violation{Kind: "dposv2-selection-depends-on-schedule",
-				Detail: fmt.Sprintf("with environment %s on the process-global generator between seeding and drawing the selection is %s; undisturbed it is %s", t[6], out, joinOr(want, ",", "-"))}
+			kind := "dposv2-selection-depends-on-schedule"
+			if t[6] == "-" {
+				kind = "dposv2-selection-depends-on-chain-tip"
+			}
+			return &hx.Violation{Kind: kind,
+				Detail: fmt.Sprintf("("+t[8]+") with environment %s on the process-global generator between seeding and drawing the selection is %s; undisturbed it is %s", t[6], out, joinOr(want, ",", "-"))}
 		}
 		return nil
 	}
@@ -341,8 +389,12 @@ func oracle(t []string, out string) *hx.Violation {
 	}
 	want := rand.New(rand.NewSource(seedOf(block(t[8])))).Intn(n)
 	if out != fmt.Sprintf("ok %d", want) {
-		return &hx.Violation{Kind: "candidate-depends-on-schedule",
-			Detail: fmt.Sprintf("with environment %s on the process-global generator between seeding and drawing the chosen index is %s; undisturbed it is %d (window %d)", t[7], out[3:], want, n)}
+		kind := "candidate-depends-on-schedule"
+		if len(t) > 9 && t[7] == "-" {
+			kind = "candidate-depends-on-chain-tip"
+		}
+		return &hx.Violation{Kind: kind,
+			Detail: fmt.Sprintf("("+strings.Join(t[9:], " ")+") with environment %s on the process-global generator between seeding and drawing the chosen index is %s; undisturbed it is %d (window %d)", t[7], out[3:], want, n)}
 	}
 	return nil
 }
@@ -384,6 +436,12 @@ func gen(g *hx.Gen) {
 			}
 			env = strings.Join(ops, ",")
 		}
+		if blk != "none" && g.R.Chance(40) {
+			// a node replaying above its checkpoint: the chain tip is far above the height being processed
+			g.Emit("cand %s %d %d %d %d %d %s %s tip=%d:%d:%d:%d:%d:%d", seed, normal, cands, unclaimed, voted, iso, env, blk,
+				1001+g.R.Intn(500), g.R.Intn(3), g.R.U64()&0xffffffff, 0x207fffff, g.R.U64()&0xffffffff, g.R.Intn(3000000))
+			continue
+		}
 		g.Emit("cand %s %d %d %d %d %d %s %s", seed, normal, cands, unclaimed, voted, iso, env, blk)
 	}
 }
@@ -422,13 +480,42 @@ func genMore(g *hx.Gen) {
 		}
 		g.Emit("sort %s %d %s", kind, 6, strings.Join(genProds(g, 2+g.R.Intn(10), false), " "))
 	}
+	// DPoS v2 rights made of several vote records with fractional weights; groups of producers holding the same
+	// records (equal rights: the key must decide, whatever order the records are summed in)
+	for i := 0; i < g.N(300, 5000); i++ {
+		var toks []string
+		for grp := 0; grp < 1+g.R.Intn(3); grp++ {
+			var st []state.VerifStake
+			for k := 3 + g.R.Intn(4); k > 0; k-- {
+				st = append(st, state.VerifStake{Votes: common.Fixed64(1 + g.R.U64()%uint64([]int64{1000, 100000000, 100000000000}[g.R.Intn(3)])), Lock: uint32(7200 + g.R.Intn(700000))})
+			}
+			var parts []string
+			for _, x := range st {
+				parts = append(parts, fmt.Sprintf("%d@%d", x.Votes, x.Lock))
+			}
+			if rightsOf(st) <= 0 {
+				continue
+			}
+			for m := 2 + g.R.Intn(2); m > 0; m-- {
+				k := append([]byte{0x02 + g.R.Byte()&1}, g.R.Bytes(3)...)
+				toks = append(toks, fmt.Sprintf("%d:%s:%s:%s", rightsOf(st), hx.Hex(k), hx.Hex(append([]byte{0x03}, k...)), strings.Join(parts, "+")))
+			}
+		}
+		if len(toks) > 0 {
+			g.Emit("sort v2 8 %s", strings.Join(toks, " "))
+		}
+	}
 	for i := 0; i < g.N(1500, 30000); i++ {
 		ps := genProds(g, 3+g.R.Intn(10), true)
 		normal, crc, unclaimed := 1+g.R.Intn(4), g.R.Intn(3), g.R.Intn(2)
 		blk := fmt.Sprintf("%d:%d:%d:%d:%d", g.R.Intn(3), g.R.U64()&0xffffffff, 0x207fffff, g.R.U64()&0xffffffff, g.R.Intn(3000000))
 		seed := seedAuxOf(block(blk))
 		_, draws := wantV2(seed, parseProds(ps), unclaimed, normal+crc)
-		g.Emit("randv2 %d %d %d %d %s %s %s %s", seed, normal, crc, unclaimed, joinOr(draws, ",", "-"), envs[g.R.Intn(len(envs))], blk, strings.Join(ps, " "))
+		tip := "tip=1000:" + blk // live node: best height = height being processed
+		if g.R.Chance(50) {
+			tip = fmt.Sprintf("tip=%d:%d:%d:%d:%d:%d", 1001+g.R.Intn(500), g.R.Intn(3), g.R.U64()&0xffffffff, 0x207fffff, g.R.U64()&0xffffffff, g.R.Intn(3000000))
+		}
+		g.Emit("randv2 %d %d %d %d %s %s %s %s %s", seed, normal, crc, unclaimed, joinOr(draws, ",", "-"), envs[g.R.Intn(len(envs))], blk, tip, strings.Join(ps, " "))
 	}
 }
 
